@@ -37,31 +37,59 @@ func runFC(prop string) {
 	}
 	var tot seqx.Stats
 	per := map[string]interface{}{}
+	// iterate the bound over ALL (sink behaviour, scenario) pairs: first every pair to depth 2, then every pair to its
+	// full depth — a pair late in the list is never left unexplored because an earlier one used up the budget.
+	type pair struct {
+		h     fcx.H
+		name  string
+		depth int
+	}
+	var pairs []pair
 	for _, sink := range sinks {
 		for _, sc := range fcx.Scenarios(prop, run.Tier, sink) {
 			if sink != "accept" && sc.Name != "justify" && sc.Name != "justify-gap" {
 				continue
 			}
 			h := fcx.H{S: sc}
+			d := fcDepth[prop][sc.Name][ti]
+			if sink != "accept" && d > 3 {
+				d = 3
+			}
 			name := sc.Name + "/" + sink
 			sc.Name = name
 			for _, f := range h.CheckPrefix() {
 				run.Report(f.Sig, "scenario prefix: "+f.Msg, map[string]interface{}{"engine": "seqx", "harness": name, "ops": []string{}})
 			}
-			d := fcDepth[prop][sc.Name[:len(sc.Name)-len(sink)-1]][ti]
-			if sink != "accept" && d > 3 {
-				d = 3
+			pairs = append(pairs, pair{h, name, d})
+		}
+	}
+	last := map[string]seqx.Stats{}
+	for pass, bound := range []int{2, 99} {
+		for _, p := range pairs {
+			d := p.depth
+			if d > bound {
+				d = bound
 			}
-			st := seqx.Explore(run, h, d)
-			per[name] = st
-			tot.States += st.States
-			tot.Transitions += st.Transitions
-			tot.Traces += st.Traces
-			tot.Outcomes += st.Outcomes
-			if st.MaxDepth > tot.MaxDepth {
-				tot.MaxDepth = st.MaxDepth
+			if pass == 1 && d <= 2 {
+				continue // already complete
 			}
-			fmt.Fprintf(os.Stderr, "%s %s: %s\n", prop, name, st.JSON())
+			if run.Expired() {
+				run.CapHit(fmt.Sprintf("%s: time budget used up before depth %d (depth 2 completed)", p.name, d))
+				continue
+			}
+			st := seqx.Explore(run, p.h, d)
+			last[p.name] = st
+			per[p.name] = st
+			fmt.Fprintf(os.Stderr, "%s %s (bound %d): %s\n", prop, p.name, d, st.JSON())
+		}
+	}
+	for _, st := range last {
+		tot.States += st.States
+		tot.Transitions += st.Transitions
+		tot.Traces += st.Traces
+		tot.Outcomes += st.Outcomes
+		if st.MaxDepth > tot.MaxDepth {
+			tot.MaxDepth = st.MaxDepth
 		}
 	}
 	run.Set("states", tot.States)
